@@ -269,12 +269,9 @@ def ref_fields(ctx: Ctx) -> RuleResult:
 
 
 def _activation_funcs(ctx: Ctx) -> Set[str]:
-    from .sch import model
+    from ..sched import activation_functions
 
-    try:
-        return set(model(ctx).activation_funcs)
-    except Undecided:
-        return set()
+    return set(activation_functions(ctx))
 
 
 # --------------------------------------------------------------------------------------------- REF-ASDICT
@@ -719,6 +716,20 @@ def ref_flagpred(ctx: Ctx) -> RuleResult:
             if kw in names_in(t) or via:
                 flag_tests.append((t, v, via))
         r.require(len(flag_tests) >= 1, "no test on the keyword arguments guards the attachment")
+        # besides the presence test, the only node-kind exclusion is "setup nodes keep running"
+        for t, v in ch:
+            if any(t is ft[0] for ft in flag_tests):
+                continue
+            attrs = sorted({x.attr for x in ast.walk(t) if isinstance(x, ast.Attribute) and is_xn(ctx, ctx.type_of(call, x.value))})
+            if not attrs:
+                continue
+            okk = attrs == ["setup"] and norm_src(t).startswith("not ") and not v is False
+            r.ob(okk, {"node kinds excluded from the outer flag": norm_src(t)})
+            if not okk:
+                r.violate(f"{call.short}: inner nodes are excluded from the outer flag by '{norm_src(t)}'", call.loc(s),
+                          "a deactivated nested DAG executes none of its non-setup nodes: only setup nodes may be left without the "
+                          "outer flag; any other exclusion (debug nodes, a resource, ...) lets those nodes run on None inputs",
+                          norm_src(t))
         for t, v, via in flag_tests:
             shown = norm_src(t) + (f"  [{via[0]} = {norm_src(env_vars[via[0]])}]" if via else "")
             pt = _presence_test(t, kw)
@@ -799,6 +810,31 @@ def ref_prefix(ctx: Ctx) -> RuleResult:
             if not ok:
                 r.violate(f"{f.short} splice: comparison across id namespaces: {norm_src(c.node)}", f.loc(c.node),
                           f"an id that is '{lt}' is compared with ids that are '{rt}': the test can never match", norm_src(c.node))
+    # inner nodes are re-registered in dependency order (a rebuilt node validates its dependencies against the outer table)
+    rebuilt = [n for n in iter_own_nodes(f.node) if isinstance(n, ast.Assign) and isinstance(n.value, ast.Call)
+               and (dotted(n.value.func) or "").endswith("asdict") and any(n is x for x in ast.walk(sp.block))]
+    if rebuilt:
+        subj = n_subj = dotted(rebuilt[0].value.args[0])
+        src_ok = None
+        for d in ctx.reaching_defs(f, subj, rebuilt[0]):
+            if isinstance(d, ast.Assign) and isinstance(d.value, ast.Subscript):
+                key = dotted(d.value.slice)
+                kd = [x for x in ctx.reaching_defs(f, key, d) if isinstance(x, ast.Assign)] if key else []
+                src_ok = any(isinstance(x.value, ast.Call) and isinstance(x.value.func, ast.Attribute)
+                             and x.value.func.attr in ("remove_any_root_node",) for x in kd) or \
+                    any(isinstance(x, (ast.For,)) and "topolog" in norm_src(x.iter) for x in ctx.reaching_defs(f, key, d))
+            elif isinstance(d, (ast.For, ast.AsyncFor)):
+                it = norm_src(d.iter)
+                src_ok = "topolog" in it
+                if not src_ok and ("exec_nodes" in it):
+                    src_ok = False
+        if src_ok is not None:
+            r.ob(src_ok, {"inner nodes re-registered in": "dependency order" if src_ok else "table order"})
+            if not src_ok:
+                r.violate(f"{f.short} splice: inner nodes are re-registered in the order of the node table, not in dependency order",
+                          f.loc(rebuilt[0]), "a rebuilt node validates its dependencies against the outer table when it is constructed: a "
+                          "node registered before one of its dependencies fails (KeyError); table order is a dependency order only for "
+                          "DAGs traced from a function, not for composed DAGs", None)
     # the helper building argument holders
     hs = [g for g in pkg_funcs(ctx) if g.name == "construct_subdag_arg_uxns"]
     if hs:
